@@ -541,7 +541,10 @@ class Case:
         if (p.m in val or p.a in val) and ('<' in rawv or '>' in rawv):
           why.append('payload unescaped in attribute %s of <%s>' % (n, tag))
           break
-      marker_seen = (p.m in all_text or p.a in all_text
+      # Intactness is demanded where the datum itself is shown (text outside
+      # tooltips, or attributes); a tooltip shows Python reprs of containers,
+      # which legitimately re-escape backslashes and quotes of their members.
+      marker_seen = (p.m in vis_text or p.a in vis_text
                      or any(p.m in a[2] or p.a in a[2] for a in doc.attrs))
       if not why and marker_seen:
         hay = [a[2] for a in doc.attrs] if p.expect == 'attr' else [all_text]
